@@ -899,7 +899,14 @@ func c15RstFilter(s []byte) []byte {
 			break
 		}
 		i++
+		for s[i] == 0xFF && i+1 < len(s) { // fill bytes (since fix c15-fill-bytes-before-marker)
+			i++
+		}
 		b2 := s[i]
+		if b2 == 0xFF { // the data ends inside the fill bytes: one FF is kept
+			out = append(out, b)
+			break
+		}
 		if b2 == 0 {
 			out = append(out, b, b2)
 		} else if b2 >= 0xD0 && b2 <= 0xD7 {
@@ -926,7 +933,14 @@ func c15RstSplit(ri int, s []byte) [][]byte {
 			break
 		}
 		i++
+		for s[i] == 0xFF && i+1 < len(s) { // fill bytes (since fix c15-fill-bytes-before-marker)
+			i++
+		}
 		b2 := s[i]
+		if b2 == 0xFF { // the data ends inside the fill bytes: one FF is kept
+			cur = append(cur, b)
+			break
+		}
 		if b2 == 0 {
 			cur = append(cur, b, b2)
 		} else if b2 >= 0xD0 && b2 <= 0xD7 {
